@@ -319,7 +319,12 @@ void fb_inv_exgcd(fb_t c, const fb_t a) {
 			}
 		}
 		/* Return g1. */
-		fb_copy(c, g1);
+		/* The cofactor has degree m exactly when a = 1: reduce it. */
+		if (fb_get_bit(g1, RLC_FB_BITS)) {
+			fb_poly_add(c, g1);
+		} else {
+			fb_copy(c, g1);
+		}
 	}
 	RLC_CATCH_ANY {
 		RLC_THROW(ERR_CAUGHT);
